@@ -165,6 +165,25 @@ theorem C10_peer_cancel_then_lost_finisheds {mx Ta Ti Tn : Nat} (s : Send.State)
   obtain ⟨pa, q1, q2, q3, q4, q5⟩ := c2 pf hpf
   exact ⟨pa, q1, q2, by rw [q3, f1], q4, by rw [q5, kc]⟩
 
+/-! ### the premises are satisfiable -/
+
+/-- the sender's EOF carrying the cancel -/
+abbrev exCancelEof : Pdu := ⟨default, .eof { cond := .CancelReceived, checksum := 0, fileSize := 0, fault := none }⟩
+
+example : (finRounds (recvStep (recvStep (recvStep exR4 5 (.pdu exCancelEof)) 6 .send) 6 .send) [1000000006, 2000000100]).2.length = 2 ∧
+    ∀ pf ∈ (finRounds (recvStep (recvStep (recvStep exR4 5 (.pdu exCancelEof)) 6 .send) 6 .send) [1000000006, 2000000100]).2,
+      ∃ pa, (sendStep (sendStep exS4 2000000200 (.pdu pf)) 2000000200 .send).sent = some pa ∧
+        (sendStep (sendStep exS4 2000000200 (.pdu pf)) 2000000200 .send).state = .Terminated := by
+  have hri : RI cfgL.max (cfgL.ta * 1000000000) (cfgL.ti * 1000000000) (cfgL.tn * 1000000000) exR4 :=
+    ri_run _ _ (ri_new cfgL [([], .dir)] 0 (by decide) (by decide) (by decide) ⟨by decide, by decide, by decide⟩)
+  obtain ⟨c1, c2⟩ := C10_peer_cancel_then_lost_finisheds (mx := 4) (Ta := 1000000000) (Ti := 3000000000) (Tn := 1000000000)
+    exS4 exR4 5 6 0 2000000200 2000000300 exCancelEof _ [1000000006, 2000000100] (by decide) (by decide) (by decide)
+    (by decide) (by decide) (by decide) (by decide) rfl (by decide) hri.inv.rt (by decide)
+    ⟨by decide, by decide, by decide, by decide, by decide, by decide, by decide, by decide, by decide, by decide, trivial⟩
+  refine ⟨c1, fun pf hpf => ?_⟩
+  obtain ⟨pa, q1, q2, _⟩ := c2 pf hpf
+  exact ⟨pa, q1, q2⟩
+
 end Cfdp.Loop
 
 #print axioms Cfdp.Loop.C10_peer_cancel_then_lost_finisheds
